@@ -866,7 +866,14 @@ def check_cases(ctx, cases):
                     if s.split(":")[0] == want:
                         return s
                 return None
+            seen = ctx.extra.setdefault("_shrunk", {})
+            cls = sig.split(":")[0]
+            if seen.get(cls, 0) >= 2:      # shrink the first cases of a failure class only (time)
+                ctx.fail(seen.get(sig, sig), what, {"case": case, "trace": tr})
+                continue
+            seen[cls] = seen.get(cls, 0) + 1
             small, ssig = shrink(case, failing)
+            seen[sig] = ssig or sig
             ctx.fail(ssig or sig, what, {"case": small, "trace": real_trace(small)[0]})
     if not ctx.model_ok:
         return
@@ -947,6 +954,11 @@ def run(ctx):
         c = cases[0]
         ctx.sample({"case": {k: c[k] for k in ("config", "outcome", "serial", "mws", "instr")}, "document": build_document(copy.deepcopy(c))[0],
                     "trace": real_trace(c)[0][:14]})
+    _cleanup(ctx)
+
+
+def _cleanup(ctx):
+    ctx.extra.pop("_shrunk", None)
 
 
 def replay(ctx, data):
